@@ -135,6 +135,10 @@ class NumEval:
                     raise Unrel("0^nonpos")
                 if a < 0 and not self.is_int(b):
                     raise Unrel("neg^frac")
+                # astronomically large / small results (e.g. c ^ exp(sqrt(csc(pi)))) take mpmath minutes inside one
+                # uninterruptible call and are meaningless for a comparison anyway
+                if mp.isinf(a) or mp.isinf(b) or (a != 0 and abs(b) * abs(mp.log(abs(a))) > 5000):
+                    raise Unrel("magnitude")
                 return self.real(mp.power(a, b))
             raise Unrel("op:" + op)
         if ty == E.FUN:
@@ -321,6 +325,8 @@ class NumEval:
         if name == "csc":
             return self.real(mp.csc(a))
         if name == "exp":
+            if abs(a) > 5000:
+                raise Unrel("magnitude")
             return self.real(mp.exp(a))
         if name == "log":
             if a <= 0:
@@ -962,6 +968,8 @@ def replay_examples(ctx, I, files=None, only=None, budget_s=None, deadline=None,
                     substs_after.update(step.rule.get_substs())
                     rerun = None
                     t_r = time.time()
+                    printed0 = text_parse(I, before_s)
+                    PARSE_DRIFT_CHECKS[0] += 1
                     try:
                         with quiet():
                             before = I.parser.parse_expr(before_s)   # fresh object: some rules mutate their input
@@ -975,6 +983,7 @@ def replay_examples(ctx, I, files=None, only=None, budget_s=None, deadline=None,
                             # the rule no longer applies to a step it was recorded on (and replayed on the unchanged tree)
                             ctx.broken("example-replay:" + key, "%s raises %s: %s on the recorded step %s (%s), which replays on the "
                                        "unchanged tree" % (rname, type(ex).__name__, str(ex)[:200], key, before_s[:200]))
+                    note_parse_drift(I, step.rule, before_s, printed0)
                     if collect is not None:
                         if rerun is not None:
                             collect.append(key)
@@ -1328,8 +1337,7 @@ def deriv_oracle(ctx, I, e, rng, var="x"):
         ctx.count("deriv-oracle:impl-" + st.split(":")[0])
         return
     if has_node(E, d, (E.DERIV,)):
-        ctx.count("deriv-oracle:unevaluated")
-        return
+        ctx.count("deriv-oracle:result-has-derivative-nodes")      # judged when they can be evaluated numerically
     names = e.get_vars() | d.get_vars()
     good = 0
     for _ in range(6):
@@ -1893,10 +1901,13 @@ def rich_roundtrip(ctx, I, n):
 # =====================================================================================================
 # stream: normalize  (value preserving at random admissible points; idempotent)
 # =====================================================================================================
+NORMALIZE_LIMIT = [20]
+
+
 def impl_normalize(I, e, conds):
     try:
         with quiet():
-            with time_limit(20):
+            with time_limit(NORMALIZE_LIMIT[0]):
                 return "ok", I.poly.normalize(e, conds)
     except Timeout:
         return "timeout", None
@@ -1934,8 +1945,18 @@ def normalize_stream(ctx, I, n):
         if rng.random() < 0.2:
             conds.append(P("y > 0"))
         cases.append((e, conds))
-    for e, conds in cases:
-        normalize_check(ctx, I, e, conds, rng)
+    # a few generated expressions make normalize (or the evaluation of its result) very slow: per-call limit and a
+    # budget for the whole stream, so that one seed cannot take ten minutes
+    NORMALIZE_LIMIT[0] = ctx.scale(4, 20)
+    deadline = time.time() + ctx.scale(40, 420)
+    try:
+        for e, conds in cases:
+            if time.time() > deadline:
+                ctx.count("normalize:not-reached-in-time-budget")
+                continue
+            normalize_check(ctx, I, e, conds, rng)
+    finally:
+        NORMALIZE_LIMIT[0] = 20
     ctx.sample({"normalize_input": str(cases[len(corpus)][0])} if len(cases) > len(corpus) else {})
 
 
@@ -2045,16 +2066,22 @@ def gen_bounds(I, rng):
 
 
 def apply_rule(I, rule, e, hctx=None, limit=30):
+    text = str(e)
+    printed = text_parse(I, text)
+    PARSE_DRIFT_CHECKS[0] += 1
     try:
-        with quiet():
-            with time_limit(limit):
-                return "ok", rule.eval(e, hctx if hctx is not None else I.context.Context())
-    except Timeout:
-        return "timeout", None
-    except AssertionError:
-        return "rejected", None
-    except Exception as ex:  # noqa
-        return "raises:" + type(ex).__name__, None
+        try:
+            with quiet():
+                with time_limit(limit):
+                    return "ok", rule.eval(e, hctx if hctx is not None else I.context.Context())
+        except Timeout:
+            return "timeout", None
+        except AssertionError:
+            return "rejected", None
+        except Exception as ex:  # noqa
+            return "raises:" + type(ex).__name__, None
+    finally:
+        note_parse_drift(I, rule, text, printed)
 
 
 def rules_stream(ctx, I, n):
@@ -2349,7 +2376,9 @@ def rule_models_stream(ctx, I, n):
                     u = P(rng.choice(["x", "log(x)", "x ^ 2", "exp(x)", "sin(x)", "atan(x)", "x + a", "log(x) ^ 2", "cos(a * x)", "sqrt(x)"]))
                     v = P(rng.choice(["x", "x ^ 2 / 2", "exp(x)", "-cos(x)", "sin(x)", "x ^ 3 / 3", "log(x)", "exp(a * x) / a", "x ^ (a + 1) / (a + 1)"]))
                     dv = R.deriv("x", v, hctx)
-                    before = E.Integral("x", lo, hi, I.poly.normalize(u * dv, hctx.get_conds()))
+                    # half of the integrands as a user would type them (dv * u, not in normal form): the rule normalises
+                    # its input in place before comparing
+                    before = E.Integral("x", lo, hi, I.poly.normalize(u * dv, hctx.get_conds()) if rng.random() < 0.5 else dv * u)
                     rule = R.IntegrationByParts(u, v)
                     st, real = apply_rule(I, rule, P(str(before)), hctx)
                     ctx.count("rule-models:parts:" + ("applied" if st == "ok" else st.split(":")[0]))
@@ -2969,6 +2998,148 @@ def rule_models2_stream(ctx, I, n):
 
 
 # =====================================================================================================
+# parsing must not depend on what rules did to earlier parse results (rules such as IntegrationByParts rewrite
+# their input in place: harmless as long as every parse returns a fresh expression)
+# =====================================================================================================
+PARSE_DRIFT = []
+
+
+def text_parse(I, text):
+    try:
+        with quiet():
+            return str(I.parser.parse_expr(text))
+    except Exception:  # noqa
+        return None
+
+
+def note_parse_drift(I, rule, text, before_print):
+    """After a rule application: parsing the text of its input again must print as it did before."""
+    if before_print is None:
+        return
+    again = text_parse(I, text)
+    if again is not None and again != before_print and len(PARSE_DRIFT) < 20:
+        try:
+            params = rule.export()
+        except Exception:  # noqa
+            params = {"name": type(rule).__name__}
+        PARSE_DRIFT.append({"text": text, "before": before_print, "after": again, "rule": str(rule), "params": params})
+
+
+def report_parse_drift(ctx):
+    for d in PARSE_DRIFT:
+        ctx.violation("parse-drift:%s" % d["text"], "after applying '%s', parse_expr(%r) gives %s (it gave %s before): the parser hands out an "
+                      "expression that a rule has rewritten in place" % (d["rule"], d["text"], d["after"], d["before"]),
+                      {"kind": "parse-drift", "text": d["text"], "params": d["params"]})
+    ctx.count("parse-drift:checked-applications", PARSE_DRIFT_CHECKS[0])
+    del PARSE_DRIFT[:]
+
+
+PARSE_DRIFT_CHECKS = [0]
+
+
+# =====================================================================================================
+# stream: identities with several side conditions are applied only when ALL of them follow from the calculation's
+# conditions (DefiniteIntegralIdentity on book identities and on goals of the file stated under conditions)
+# =====================================================================================================
+def negate_cond(E, c):
+    flip = {">": "<", "<": ">", ">=": "<", "<=": ">", "!=": "="}
+    if c.ty == E.OP and c.op in flip:
+        return E.Op(flip[c.op], c.args[0], c.args[1])
+    return None
+
+
+def identity_conditions_stream(ctx, I, n):
+    E, R, cs = I.expr, I.rules, I.compstate
+    P = I.parser.parse_expr
+    rng = ctx.rng("identity-conds")
+
+    def unsym(e):
+        if e.ty == E.SYMBOL:
+            return E.Var(e.name)
+        if e.ty == E.OP:
+            return E.Op(e.op, *[unsym(a) for a in e.args])
+        if e.ty == E.FUN:
+            return E.Fun(e.func_name, *[unsym(a) for a in e.args])
+        if e.ty == E.INTEGRAL:
+            return E.Integral(e.var, unsym(e.lower), unsym(e.upper), unsym(e.body))
+        return e
+    # (1) the book's identities, (2) goals of a file stated under several conditions (they enter the context of later
+    # items through CompFile.get_context)
+    idents = []
+    try:
+        with quiet():
+            bctx = I.context.Context()
+            bctx.load_book("base")
+            file = cs.CompFile("base", "c19_identity_conditions")
+            file.add_goal("(INT x:[0,oo]. exp(-(a * x)) * sin(b * x)) = b / (a ^ 2 + b ^ 2)", conds=["a > 0", "b > 0"])
+            file.add_goal("(INT x:[0,1]. x ^ (p - 1) * (1 - x) ^ (q - 1)) = Gamma(p) * Gamma(q) / Gamma(p + q)", conds=["p > 0", "q > 0"])
+            file.add_goal("(INT x:[1,oo]. x ^ (-s) * log(x) ^ k) = factorial(k) / (s - 1) ^ (k + 1)", conds=["s > 1", "k >= 0"])
+            fctx = file.get_context()
+        for src, c in (("base book", bctx), ("goals of the file", fctx)):
+            for ident in c.get_definite_integrals():
+                if ident.conds is not None and len(ident.conds.data) >= 2:
+                    idents.append((src, c, ident))
+    except Exception as ex:  # noqa
+        ctx.count("identity-conds:setup-" + type(ex).__name__)
+        return
+    seen = set()
+    idents = [t for t in idents if not (str(t[2].lhs) in seen or seen.add(str(t[2].lhs)))]
+    ctx.count("identity-conds:identities", len(idents))
+    rule = R.DefiniteIntegralIdentity()
+    for src, c, ident in idents:
+        e = unsym(ident.lhs)
+        iconds = [unsym(x) for x in ident.conds.data]
+        # every way of keeping / negating / dropping the identity's conditions as conditions of the calculation
+        import itertools
+        combos = list(itertools.product(("keep", "negate", "drop"), repeat=len(iconds)))
+        rng.shuffle(combos)
+        for combo in combos[:max(3, n)]:
+            calc_conds = []
+            for how, cnd in zip(combo, iconds):
+                if how == "keep":
+                    calc_conds.append(cnd)
+                elif how == "negate":
+                    nc = negate_cond(E, cnd)
+                    if nc is not None:
+                        calc_conds.append(nc)
+            hctx = I.context.Context(c)
+            for cnd in calc_conds:
+                hctx.add_condition(cnd)
+            st, r = apply_rule(I, rule, P(str(e)), hctx)
+            key = "%s | %s" % (e, ", ".join(str(x) for x in calc_conds))
+            ctx.case(("identity-conds", key), nontrivial=True)
+            if st != "ok":
+                ctx.count("identity-conds:" + st.split(":")[0])
+                continue
+            applied = not same_expr(E, r, P(str(e)))
+            ctx.count("identity-conds:" + ("applied" if applied else "declined"))
+            if not applied:
+                continue
+            # applied: every side condition of the identity must hold wherever the calculation's conditions do
+            names = set()
+            for x in iconds + calc_conds:
+                names |= x.get_vars()
+            bad = None
+            for attempt in range(12):
+                env = sample_env(E, rng, names, calc_conds, integer_vars(E, [e, unsym(ident.rhs)]),
+                                 mode=("interior", "near", "wide")[attempt % 3])
+                if env is None:
+                    break
+                for cnd in iconds:
+                    if cond_holds(E, cnd, env) is False and cond_holds(E, negate_cond(E, cnd) or cnd, env) is True:
+                        bad = (cnd, env)
+                        break
+                if bad:
+                    break
+            if bad:
+                ctx.violation("identity-conds:" + key,
+                              "DefiniteIntegralIdentity rewrote %s to %s using an identity (%s) stated under [%s], in a calculation whose "
+                              "conditions [%s] admit %s, where the side condition %s fails" % (
+                                  e, r, src, ", ".join(str(x) for x in iconds), ", ".join(str(x) for x in calc_conds), bad[1], bad[0]),
+                              {"kind": "identity-conds", "expr": str(e), "calc_conds": [str(x) for x in calc_conds], "source": src})
+
+
+# =====================================================================================================
 # stream: bounds of expressions under interval conditions (Conditions.get_bounds_for_expr)
 # =====================================================================================================
 def gen_bounded_expr(E, rng, depth):
@@ -3231,9 +3402,9 @@ def run(ctx):
         "magnitude); thorough: all files; quick: the file group `seed mod 4` (a quarter of the steps) within a time cap -- see "
         "example_steps.coverage for what this run reached. distinct = by canonical input string.")
     use_module_findings(ctx)
-    proofs_ok = ctx.lean_props(["Holpy.C19.Props", "Holpy.C19.Props2", "Holpy.C19.Props3"], exes=[EXE])
+    proofs_ok = ctx.lean_props(["Holpy.C19.Props", "Holpy.C19.Props2", "Holpy.C19.Props3", "Holpy.C19.Props4"], exes=[EXE])
     if ctx.tier == "thorough" and proofs_ok:
-        ctx.lean_check_modules(["Holpy.C19.Props", "Holpy.C19.Props2", "Holpy.C19.Props3"])
+        ctx.lean_check_modules(["Holpy.C19.Props", "Holpy.C19.Props2", "Holpy.C19.Props3", "Holpy.C19.Props4"])
     ctx.coverage["trusted_base"] += [
         "Mathlib v4.33 analysis modules imported by the proof files (SpecialFunctions.*Deriv, Pow.Deriv, Sqrt, IntervalIntegral)",
         "correspondence harness harness/props/c19.py: generators, s-expression writer, replacement of rules.normalize by the identity "
@@ -3269,6 +3440,7 @@ def run(ctx):
     linearity_stream(ctx, I, ctx.scale(300, 4000))
     rule_models_stream(ctx, I, ctx.scale(60, 900))
     rule_models2_stream(ctx, I, ctx.scale(60, 900))
+    identity_conditions_stream(ctx, I, ctx.scale(6, 9))
     ftc_table_check(ctx, I)
     interval_fun_stream(ctx, I, ctx.scale(1500, 30000))
     rules_stream(ctx, I, ctx.scale(80, 900))
@@ -3303,6 +3475,7 @@ def run(ctx):
                          % (judged, ntotal, stats.get("ok", 0), stats.get("points", 0), nsel))
     ctx.coverage["example_steps"] = stats
     ctx.log("recorded calculations done: %s" % {k: v for k, v in stats.items() if not k.startswith("rule:")})
+    report_parse_drift(ctx)
     ctx.coverage["oracle_note"] = ("numerical judgements (mpmath) are supporting evidence, not proof; counts of skipped steps are in "
                                    "example_steps / histogram")
 
@@ -3366,6 +3539,18 @@ def replay_one(ctx, I, rp):
     elif k == "example-history":
         files = [f for f in typed_example_files(ctx.repo) if f[0] == rp["file"]]
         example_histories(ctx, I, files, per_calc=8)
+    elif k == "parse-drift":
+        with quiet():
+            e0 = P(rp["text"])
+            rule = mk_rule(I, dict(rp["params"]))
+        with quiet():
+            hc = I.context.Context()
+            hc.add_condition(P("a > 0"))
+            hc.add_condition(P("b > 0"))
+        apply_rule(I, rule, e0, hc)
+        report_parse_drift(ctx)
+    elif k == "identity-conds":
+        identity_conditions_stream(ctx, I, 9)
     elif k == "no-crash":
         # a rule may decline (AssertionError) or succeed, but must not die of a TypeError/AttributeError/...
         with quiet():
@@ -3406,8 +3591,9 @@ def replay(ctx, rp):
 
 MANIFEST = {
     "text": "Lean theorems (Mathlib analysis) about executable models of the calculator's logic cores, every model function compared "
-            "with the real Python on generated inputs on every run. PROVED: deriv_correct (every case of rules.deriv on the closed-form "
-            "fragment, under the domain predicate DiffOK); linearity_value (linearityM = Linearity.eval on definite integrals, under "
+            "with the real Python on generated inputs on every run. PROVED: deriv_correct / deriv_correct_fixed (every case of rules.deriv on the closed-form "
+            "fragment, under the domain predicate DiffOK; deriv_fix_agrees: the function after fix C19-13, which regards D x. f as "
+            "depending on x and is what the driver runs, coincides with the earlier model on expressions without derivative nodes); linearity_value (linearityM = Linearity.eval on definite integrals, under "
             "interval integrability of the parts); split_value (splitM = SplitRegion.eval without principal value); "
             "substitution_value (substM = Substitution.eval on a definite integral, branch where replacing g by u clears the old "
             "variable; the rule's normalize(body / deriv g) result and its bound-swap decision are oracle arguments recorded from the "
@@ -3442,7 +3628,12 @@ MANIFEST = {
             "calculations on live compstate.Calculation objects (substitute / table / replace substitution with re-used variable "
             "names, going back to an earlier step through CalculationStep.perform_rule and re-doing a rule there) have every step "
             "judged against the start with the substitutions in force, and every recorded calculation is re-done from a random "
-            "earlier step and compared with the forward replay.",
+            "earlier step and compared with the forward replay. After every rule application of every stream the text of the "
+            "rule's input is parsed again and must print as before (rules such as IntegrationByParts rewrite their input in place, which "
+            "is harmless only while every parse returns a fresh expression). Identities with several side conditions (base book and "
+            "goals of a file stated under conditions) are applied under every keep/negate/drop combination of their conditions as "
+            "conditions of the calculation; an application is reported when the calculation's conditions admit parameter values at "
+            "which a side condition of the identity fails.",
     "note": "Trusted: Lean kernel + propext/Classical.choice/Quot.sound, Mathlib analysis library, the harness generators and the numerical "
             "oracle (mpmath quadrature/differentiation/limits), Lark. The theorems about substM take normalize's output as given "
             "(value hypothesis qval) - normalize itself is judged only numerically; SubstOK/PartsOK/FtcOK/LinOK spell out the analytic "
@@ -3480,6 +3671,9 @@ FINDINGS = [
     {"status": "fixed", "key": "history:replace-substitution-under-open-integral", "commit": "bc85788",
      "what": "ReplaceSubstitution rewrote the bound variable of an integral still to be evaluated: (x + 3) ^ 3 / 3 + (INT u. 1/2 * u ^ 2) "
              "became ... + (INT u. 1/2 * (2 * x + 1) ^ 2) (value changed)"},
+    {"status": "fixed", "key": "deriv-value:a ^ (D x. x ^ 2)", "commit": "fixes/C19-13.patch",
+     "what": "deriv treated a sub-expression D x. f as constant in x (get_vars counts the variable of a derivative as bound): "
+             "deriv(a ^ (D x. x ^ 2)) = 0, deriv(x * (D x. x ^ 2)) = D x. x ^ 2"},
     {"status": "known", "key": "normalize-idempotent:second-pass-changes-form-only",
      "what": "normalize is not idempotent: a second pass reorders factors, distributes a rational coefficient or simplifies constants "
              "further (e.g. (x - y) / 5 -> 1/5 * (x - y) -> 1/5 * x - 1/5 * y); the value is unchanged (checked on every instance)"},
